@@ -1,7 +1,7 @@
 """C01 — crash anywhere, restart with recovery: same outcome as an uninterrupted run (engine-level: Mode-A trace differential + monitors; see harness/engine_suites.py)."""
 from __future__ import annotations
 
-from harness import engine_suites, synth_suites
+from harness import conc_suite, engine_suites, synth_suites
 
 RULE = ("random workflows (1-5 stages, every join type, scripted task outcomes incl. polling / transient / jump / suspend) x "
         "delivery schedules (fifo | random order | random + redelivery of unacknowledged messages | arbitrary incl. early re-polls), "
@@ -22,6 +22,8 @@ def run(ctx) -> None:
     engine_suites.run_for(ctx, "C01")
     # synthetic before/after stages: implementation-only family (monitors on real-engine traces, no model line)
     synth_suites.run_for(ctx, "C01")
+    # AddMultiInstance under a kill after each of its commits: implementation-only (the message is outside the Lean model)
+    conc_suite.run_for(ctx, "C01", kinds=("mi",))
 
 
 def search(ctx) -> None:
@@ -29,6 +31,8 @@ def search(ctx) -> None:
 
 
 def replay(ctx, body) -> int:
+    if conc_suite.is_replay(body):
+        return conc_suite.replay(ctx, body)
     if synth_suites.is_synth_replay(body):
         return synth_suites.replay(ctx, body)
     return engine_suites.replay(ctx, body)
